@@ -22,7 +22,14 @@ Go code modelled (session.go, context.go, peer.go at the pinned commit; as coded
         `rAdd`       `graceCtxWaitGroup.Add(1)`; spawn the handler goroutine
         `rDLoad`…`rDSock`  `readDisconnected` (status load, switch / compare-and-swap to PassiveClosing (load again when it fails), ctx wait,
                      cancel of pending calls without reply, ActiveClosing → return, else socket close,
-                     PassiveClosed)
+                     PassiveClosed). The cancel loop is `callCmdMap.Range` (goutil.AtomicMap = a copy of
+                     sync.Map): `rDSnap` = `Range` starts: the key set present NOW is what it will visit
+                     (`read.m`, after promoting the dirty map; a call stored later is not visited);
+                     `rDPick j` = the Go map iteration yields entry `j` next — ANY remaining entry, the
+                     order is not specified by the language; `rDVisit` = `callCmd.mu.Lock()` acquired
+                     (blocked while a caller still inside `AsyncCall`, or a reply handler, holds it),
+                     `cancel` when the call has no reply and no error status, `mu.Unlock()`;
+                     `rDCancelEnd` = the iteration is exhausted.
   * `handlerCtx.handle` (CALL: `handleCall`, REPLY: `handleReply`), `Push`   handler threads
         `hEnter` [gate h.enter], `hBody` (handler body returns) [gate h.exit], `hCheck` (`write`: status
         load and test: Ok, or ActiveClosing and a REPLY), `hWrite` (`WriteMessage`) [gate reply.written],
@@ -125,7 +132,11 @@ inductive RPc
   | top | blocked
   | got (f : Option Frame)   -- `ReadMessage` returned (frame consumed, or an error): gate read.msg
   | add (f : Frame)          -- post-read check passed: gate read.add, before `Add(1)`
-  | dload | dgo (st : Status) | dwait (active : Bool) | dcancel (active : Bool) | dsock | rexit
+  | dload | dgo (st : Status) | dwait (active : Bool)
+  | dcancel (active : Bool)                               -- ctx wait returned, before `callCmdMap.Range`
+  | dloop (active : Bool) (todo : List Nat)               -- in `Range`: entries of the snapshot not yet yielded
+  | dlock (active : Bool) (j : Nat) (todo : List Nat)     -- entry `j` yielded: at `callCmd.mu.Lock()`
+  | dsock | rexit
 deriving DecidableEq, Repr
 
 structure St where
@@ -172,11 +183,20 @@ def C.isDone (c : C) : Bool :=
   | .done _ => true
   | _ => false
 
-/-- the canceller has to wait for / cancel this call (visible in the table with `mu` held or waiting). -/
-def C.cancellable (c : C) : Bool :=
+/-- `callCmd.mu` is held: by the caller from `cmd.mu.Lock()` in `AsyncCall` until `AsyncCall` returns
+    (gates call.store and write.check are inside), by the reader / reply handler from `bindReply` to the
+    end of `handleReply`. -/
+def C.muHeld (c : C) : Bool :=
   match c.pc with
-  | .wok | .written => true
+  | .issued | .wok | .wno | .bound => true
   | _ => false
+
+/-- the pending-call table as `Range` sees it when it starts: the indices of the calls in the table. -/
+def openIdx (cs : List C) : List Nat :=
+  (List.range cs.length).filter fun j =>
+    match cs[j]? with
+    | some c => c.isOpen
+    | none => false
 
 /-- `write`'s status test for a reply / for a call or push. -/
 def replyAllowed (st : Status) : Bool := st == .ok || st == .closing
@@ -184,7 +204,7 @@ def callAllowed (st : Status) : Bool := st == .ok
 
 inductive Ev
   | envCall (id : Nat) | envReply (j : Nat) | envLost
-  | rTop | rRead | rReadErr | rCheck | rAdd | rDLoad | rDGo | rDWait | rDCancel (j : Nat)
+  | rTop | rRead | rReadErr | rCheck | rAdd | rDLoad | rDGo | rDWait | rDSnap | rDPick (j : Nat) | rDVisit
   | rDCancelEnd | rDSock
   | hEnter (i : Nat) | hBody (i : Nat) | hCheck (i : Nat) | hWrite (i : Nat) | hReplyDone (i : Nat)
   | hFin (i : Nat) | pushStart
@@ -249,21 +269,29 @@ def step (s : St) : Ev → Option St
     match s.reader with
     | .dwait a => if s.ctx = 0 then some { s with reader := .dcancel a } else none
     | _ => none
-  | .rDCancel j =>
+  | .rDSnap =>
     match s.reader with
-    | .dcancel _ =>
+    | .dcancel a => some { s with reader := .dloop a (openIdx s.cs) }
+    | _ => none
+  | .rDPick j =>
+    match s.reader with
+    | .dloop a todo => if j ∈ todo then some { s with reader := .dlock a j (todo.erase j) } else none
+    | _ => none
+  | .rDVisit =>
+    match s.reader with
+    | .dlock a j todo =>
       match s.cs[j]? with
       | some c =>
-        if c.pc = .written then
-          some { s with calls := s.calls - 1, cs := s.cs.set j { c with pc := .done .cancelled } }
-        else none
-      | none => none
+        if c.muHeld then none
+        else if c.pc = .written then
+          some { s with reader := .dloop a todo, calls := s.calls - 1,
+                        cs := s.cs.set j { c with pc := .done .cancelled } }
+        else some { s with reader := .dloop a todo }
+      | none => some { s with reader := .dloop a todo }
     | _ => none
   | .rDCancelEnd =>
     match s.reader with
-    | .dcancel a =>
-      if s.cs.all (fun c => !c.cancellable) then some { s with reader := if a then .rexit else .dsock }
-      else none
+    | .dloop a [] => some { s with reader := if a then .rexit else .dsock }
     | _ => none
   | .rDSock =>
     if s.reader = .dsock then some { s with sock := true, status := .pclosed, reader := .rexit }
